@@ -1,5 +1,6 @@
 """C12 -- SFTP transfers reproduce the source bytes exactly or report failure."""
 
+import errno
 import os
 import shutil
 import tempfile
@@ -33,11 +34,15 @@ RULE = ('A real asyncssh SFTP client (get, put, copy, open+read/write/append '
         'returned exactly the model\'s bytes); a call during which a block '
         'error was injected, or a non-sparse copy whose source ended early, '
         'must raise; nothing hangs. A second population runs the same '
-        'operations against the real SFTPServer on real files (fault-free), '
+        'operations against the real SFTPServer on real files, '
         'half of them with sparse=True on sources that really are sparse on '
         'disk (drawn layouts of data and holes: leading, inner, trailing, '
         'all-hole, page-boundary lengths), '
-        'and requires byte equality. Non-trivial = at least one transfer of '
+        'and requires byte equality; in half of these runs the storage under '
+        'the server is faulty: reads return a drawn fraction (never nothing) '
+        'of what is there, one drawn write stores half its data and returns '
+        'the count, after which the disk is fine again (the result must be '
+        'exact) or full (the operation must raise). Non-trivial = at least one transfer of '
         '> 0 bytes; distinct = (plan, schedule, trace) signature.')
 
 ASSUMPTIONS = [
@@ -56,7 +61,8 @@ STUB = ['event loop + clock', 'TCP', 'executor', 'adversarial SFTP responder '
 PROBES = ['replies_reordered', 'replies_held_late', 'handle_sequences',
           'short_reads_served', 'read_error_injected',
           'write_error_injected', 'early_eof', 'op_raised', 'op_ok',
-          'parallel_requests', 'real_server', 'sparse_copy', 'hole_layouts',
+          'parallel_requests', 'real_server', 'storage_short_reads',
+          'storage_partial_write', 'storage_full', 'sparse_copy', 'hole_layouts',
           'trailing_hole']
 
 _base = [None]
@@ -152,6 +158,19 @@ def gen_plan(rng):
             policy['eof_frac'] = rng.choice([0, 100, 500, 900, 999])
 
     sparse = real and rng.chance(50)
+    srv_io = None
+
+    if real and rng.chance(50):
+        # faults of the storage under the real server: a read returns part
+        # of what is there (never nothing), one write stores only part of
+        # its data and says so -- after which the disk is either fine again
+        # or full
+        srv_io = {'short_reads': [rng.choice([250, 300, 500, 999, 1000, 1000])
+                                  for _ in range(rng.between(1, 4))]
+                  if rng.chance(60) else None,
+                  'partial_write_at': rng.below(10) if rng.chance(50)
+                  else None,
+                  'then': rng.choice(['fine', 'fine', 'full'])}
 
     if sparse:
         # hole layouts: [[kind, length], ...]; the file really is sparse
@@ -159,6 +178,8 @@ def gen_plan(rng):
         bs = rng.choice([1024, 4096, 16384, 65536])
 
         for op in ops:
+            op['size'] = min(op['size'], bs * 150)
+
             if op['op'] in ('get', 'put', 'copy'):
                 layout = []
                 total = 0
@@ -210,7 +231,7 @@ def gen_plan(rng):
                     'capacity': 0, 'max_iterations': 40000},
         'real_server': real, 'sparse': sparse,
         'block_size': bs, 'max_requests': mr,
-        'ops': ops, 'policy': policy,
+        'ops': ops, 'policy': policy, 'srv_io': srv_io,
     }
 
 
@@ -259,6 +280,21 @@ def valid_plan(plan):
                         any(k not in ('d', 'h') or n < 1
                             for k, n in op['layout']):
                     return False
+
+        io = plan.get('srv_io')
+
+        if io is not None:
+            if not plan['real_server'] or io['then'] not in ('fine', 'full'):
+                return False
+
+            if io['short_reads'] is not None and \
+                    (not io['short_reads'] or
+                     any(not 250 <= x <= 1000 for x in io['short_reads'])):
+                return False
+
+            if io['partial_write_at'] is not None and \
+                    not 0 <= io['partial_write_at'] <= 1000:
+                return False
 
         sr = plan['policy'].get('short_reads')
 
@@ -348,11 +384,52 @@ def run_plan(plan, sched_seed=None, sched_replay=None):
         else:
             fs.files[b'/' + name.encode()] = bytearray(data)
 
+    io = plan.get('srv_io') or {}
+    iostat = {'reads': 0, 'writes': 0, 'short_reads': 0, 'partial': 0,
+              'full': 0}
+
+    class FaultyStorageServer(asyncssh.SFTPServer):
+        """The real server on a disk that reads and writes short"""
+
+        def read(self, file_obj, offset, size):
+            k = iostat['reads']
+            iostat['reads'] += 1
+            shorts = io.get('short_reads')
+
+            if shorts and size > 1:
+                want = max(1, size * shorts[k % len(shorts)] // 1000)
+
+                if want < size:
+                    data = super().read(file_obj, offset, want)
+
+                    if len(data) == want:
+                        iostat['short_reads'] += 1
+
+                    return data
+
+            return super().read(file_obj, offset, size)
+
+        def write(self, file_obj, offset, data):
+            k = iostat['writes']
+            iostat['writes'] += 1
+            at = io.get('partial_write_at')
+
+            if at is not None and k == at and len(data) > 1:
+                iostat['partial'] += 1
+                return super().write(file_obj, offset, data[:len(data) // 2])
+
+            if at is not None and k > at and iostat['partial'] and \
+                    io['then'] == 'full' and data:
+                iostat['full'] += 1
+                raise OSError(errno.ENOSPC, 'No space left on device')
+
+            return super().write(file_obj, offset, data)
+
     async def main():
         if real:
             acc = await asyncssh.listen(
                 '127.0.0.1', 22, server_factory=lambda: RecServer(world),
-                sftp_factory=lambda chan: asyncssh.SFTPServer(
+                sftp_factory=lambda chan: FaultyStorageServer(
                     chan, chroot=srvroot.encode()),
                 **server_opts(encoding=None))
         else:
@@ -370,6 +447,7 @@ def run_plan(plan, sched_seed=None, sched_replay=None):
                    'ok': None, 'detail': ''}
             s = stub.get('s')
             err0 = s.errors_injected if s else 0
+            full0 = iostat['full']
             rname, rname2 = 'r%d.bin' % i, 'r%d.copy' % i
             lpath = os.path.join(d, 'l%d.bin' % i)
             eof_at = None
@@ -576,6 +654,9 @@ def run_plan(plan, sched_seed=None, sched_replay=None):
                 rec['raised'] = exc
 
             rec['error_injected'] = bool(s and s.errors_injected > err0)
+            # a disk that stayed full cannot hold the result: the operation
+            # has to fail (a disk that recovered can: it has to be exact)
+            rec['disk_full'] = iostat['full'] > full0
             rec['early_eof'] = eof_at is not None and eof_at < size
             results.append(rec)
 
@@ -600,7 +681,13 @@ def run_plan(plan, sched_seed=None, sched_replay=None):
             if rec['raised'] is None:
                 sim.probes['op_ok'] += 1
 
-                if not rec['ok']:
+                if rec['disk_full']:
+                    world.violation(
+                        'error-swallowed',
+                        '%s returned normally although the server\'s disk '
+                        'was full after a partial write (srv_io %r)' %
+                        (rec['op'], io), sig=rec['op'] + '-disk-full')
+                elif not rec['ok']:
                     world.violation(
                         'corrupt-success',
                         '%s of %d bytes (block_size=%d max_requests=%d, '
@@ -625,7 +712,7 @@ def run_plan(plan, sched_seed=None, sched_replay=None):
                 sim.probes['op_raised'] += 1
 
                 if not rec['error_injected'] and not rec['early_eof'] and \
-                        not (s and s.bad_replies):
+                        not rec['disk_full'] and not (s and s.bad_replies):
                     world.violation(
                         'spurious-failure',
                         '%s of %d bytes failed without any injected fault: '
@@ -657,6 +744,9 @@ def run_plan(plan, sched_seed=None, sched_replay=None):
 
         if real:
             sim.probes['real_server'] += 1
+            sim.probes['storage_short_reads'] += iostat['short_reads']
+            sim.probes['storage_partial_write'] += iostat['partial']
+            sim.probes['storage_full'] += iostat['full']
 
             if plan['sparse']:
                 sim.probes['sparse_copy'] += 1
